@@ -19,7 +19,8 @@ func init() {
 		Decided: "D1 for every intrinsic leaf of the formatter the language of what it can print (strconv producers modelled by trusted regular over-approximations) is included in the scanner's language of the intended token type, and no token type tried earlier by the scanner matches a prefix of a printed word followed by a delimiter; " +
 			"D2 writer and reader use inverse conversion pairs with equal constants (FormatInt(10)/ParseInt(10,64), 0x+FormatUint(16)/ParseUint([2:],16,64), FormatFloat(64)/ParseFloat(64), Quote/Unquote, QuoteRune/Unquote+decode, FormatBool/ParseBool), and the collection type names emitted, scanned and dispatched on are one and the same set; " +
 			"D3 every field of the formatter that FormatValue writes is re-initialised at its entry (or restored by defer) and the depth counter is balanced on normal paths: the text is a function of the argument alone, also after a failed call; " +
-			"D4 every recursion cycle of the formatter carries depth accounting (else a self-containing value overflows the stack instead of being elided); D5 the formatter's loops terminate.",
+			"D4 every recursion cycle of the formatter carries depth accounting (else a self-containing value overflows the stack instead of being elided); D5 the formatter's loops terminate." +
+			" Also: every word a leaf can print is the match Go's leftmost-first matching selects (not only a word of the token's language); the reader does not fill a bounded collection past the capacity it created it with.",
 		NotDecided: "value equality of Parse(Format(v)), the text fixpoint, numeric exactness (strconv's contract), leftmost-first match preference inside one token regex, ordering of unordered maps.",
 		Run:        runC10,
 		Assumptions: []string{
